@@ -39,6 +39,9 @@ func vpH_C13_teardown_gs() {
 	if w.mesh[0] {
 		gs.tagTracer.Graft(x, vpT0) // the protection a mesh member carries
 	}
+	if vpBool("iwant_promise_outstanding") { // x advertised a message, we asked for it, it never came
+		gs.gossipTracer.AddPromise(x, []string{"m9"})
+	}
 	if vpBool("ip_tracked") { // IP colocation bookkeeping of the peer
 		if st, ok := gs.score.peerStats[x]; ok {
 			st.ips = []string{"1.2.3.4"}
@@ -115,6 +118,11 @@ func vpAssertGone(w *vpWorld, x peer.ID) {
 	_, ipl := gs.score.peerIPs["1.2.3.4"][x]
 	vpAssert(!ipl, "the IP-colocation bookkeeping of a departed peer is dropped with its statistics")
 	vpAssert(!w.n.h.cm.IsProtected(x, ""), "no connection-manager protection installed by pubsub survives the peer's departure")
+	if gt := gs.gossipTracer; gt != nil {
+		_, pp := gt.peerPromises[x]
+		_, pm := gt.promises["m9"][x]
+		vpAssert(!pp && !pm, "no IWANT promise of a departed peer is tracked once the follow-up time has passed and a heartbeat has settled it")
+	}
 }
 
 // stream_churn: the peer's OUTBOUND stream dies while its connection stays up (a transient reset, or a hostile peer
